@@ -20,6 +20,8 @@ def run(rep, tier, seed):
         dict(name="drv_buffered", maxinstr=3, maxhist=1, ops="OpsDrvP", points="NoPts", seeds="NoSeeds", prefix="buffered",
              rec_kinds=("U", "A"), max_replay=mr),
         dict(name="drv_dot_seta", maxinstr=3, maxhist=1, ops="OpsDrvC", points="NoPts", seeds="NoSeeds", rec_kinds=("U", "A"), max_replay=mr),
+        dict(name="drv_hist2_buffered", maxinstr=2, maxhist=2, ops="OpsDrvP", points="NoPts", seeds="NoSeeds", prefix="buffered",
+             rec_kinds=("U", "A"), max_replay=mr),
         dict(name="drv_hist2", maxinstr=2, maxhist=2, ops="OpsDrv", points="PtsOne", seeds="SeedsB", rec_kinds=("U",), max_replay=mr),
     ]
     if not q:
